@@ -1,6 +1,6 @@
 """Source of MANIFEST.json (run ./tools_manifest.py after editing)."""
 
-FIX_COMMITS = ['aa8a796']
+FIX_COMMITS = ['aa8a796', 'e19c32a', '9330350', '8599158', '33efd15']
 
 _ALL = ['C%02d' % i for i in range(1, 21)]
 
@@ -28,6 +28,19 @@ CHECKS = [
         note='Trusts the reference jets (cross-checked by finite differences of the reference value, which also filters '
              'kinks); tolerance 2e-6 relative; four engine-level defects are listed known findings and bucketed by structure.',
         technique='property-based testing (Hypothesis): generated differentiable DAGs vs reference automatic differentiation (jets)',
+    ),
+    dict(
+        id='C08',
+        text='Generated raw outcomes, no estimation: K = 1..6 parameters in sorted and adversarial name orders, negative-definite '
+             '(cond <= ~1e8) or exactly rank-deficient Hessians, PSD BHHH incl. BHHH = -H, optional null log likelihood, optional '
+             'B x K bootstrap sample, active/inactive bounds, sample size != observations. Every figure of get_general_statistics, '
+             'the three variance-covariance matrices, the Beta objects, get_estimated_parameters (both modes), '
+             'get_correlation_results, the HTML/str/short summaries, compile_estimation_results (1-3 models x flag combinations) '
+             'and likelihood_ratio_test (both argument orders) is recomputed from its defining formula and compared cell by cell.',
+        note='Trusted base: exact rational arithmetic (fractions.Fraction) for statistics, pseudo-inverse, sandwich and sample '
+             'covariance; scipy.special.erfc / chdtri; a stub model exposing exactly the attributes RawResults.__init__ reads. '
+             'Zero-variance sentinel conventions, equal-K likelihood-ratio tests, H=None and LaTeX/F12 output are not judged.',
+        technique='property-based testing (Hypothesis) with an exact-arithmetic reference oracle over synthetic raw results',
     ),
     dict(
         id='C10',
